@@ -497,7 +497,7 @@ func init() {
 		New:         func() any { return &C10Case{} },
 		Check:       func(c any) Result { return checkC10(c.(*C10Case)) },
 		Quick:       4000,
-		Thorough:    25000,
+		Thorough:    100000,
 		FuzzTargets: []string{"FuzzNewExec"},
 		FuzzSeconds: 240,
 	})
